@@ -1,7 +1,8 @@
 (* C13 — pinned property theorems.  Statements only; the proofs are in Proofs_*.v.
    A double is its 64-bit pattern; a magnitude pattern u (0 <= u <= INF) has the exact value ival u / 2^1074. *)
 From Coq Require Import ZArith List Bool String.
-From C13 Require Import Model_C13 Code_C13 Proofs_Round Proofs_Unique Proofs_Digits Proofs_Shortest Proofs_Radix Proofs_Strings Proofs_Total Proofs_Minimal Proofs_Refute.
+From C13 Require Import Model_C13 Code_C13 Proofs_Round Proofs_Unique Proofs_Digits Proofs_Shortest Proofs_Radix Proofs_Strings Proofs_Total Proofs_Minimal Proofs_Refute
+  Deep_Code_C13 Deep_ParseInt_C13 Deep_Digits_C13 Deep_Format_C13 Deep_Exact_C13 Deep_Fixed_C13.
 Import ListNotations.
 Local Open Scope Z_scope.
 
@@ -155,6 +156,40 @@ Theorem string_to_number_model_refuted : exists s, string_to_number_model s <> s
 Proof. exact string_to_number_refuted. Qed.
 Check string_to_number_model_refuted : exists s, string_to_number_model s <> string_to_number_spec s.
 
+(* ---- the REPAIRED hand-written algorithms now in /repo (Deep_Code_C13, transliterated) ARE the specification ------- *)
+
+(* a binary64 value has at most 768 significant decimal digits: with e = floor(log10 x), x * 10^(767-e) is an integer —
+   so format!("{n:.767e}") (decimal expansion correctly rounded at the 768th digit) is the complete expansion *)
+Theorem double_has_768_digits : forall u, 0 < u < INF -> exact767_at u.
+Proof. exact exact767_holds. Qed.
+Check double_has_768_digits : forall u, 0 < u < INF -> exact767_at u.
+
+(* exact_decimal_digits + round_to_significant_digits + f64_to_exponential_with_precision = toExponential of ECMA-262 *)
+Theorem to_exponential_fixed_model_eq_spec : forall bits fd, 0 <= bits ->
+  to_exponential_fixed_model bits fd = to_exponential_spec bits fd.
+Proof. exact to_exponential_fixed_model_eq_spec_lemma. Qed.
+Check to_exponential_fixed_model_eq_spec : forall bits fd, 0 <= bits ->
+  to_exponential_fixed_model bits fd = to_exponential_spec bits fd.
+
+(* ... and the repaired toPrecision = toPrecision of ECMA-262, for every pattern and every precision argument *)
+Theorem to_precision_fixed_model_eq_spec : forall bits pd, 0 <= bits ->
+  to_precision_fixed_model bits pd = to_precision_spec bits pd.
+Proof. exact to_precision_fixed_model_eq_spec_lemma. Qed.
+Check to_precision_fixed_model_eq_spec : forall bits pd, 0 <= bits ->
+  to_precision_fixed_model bits pd = to_precision_spec bits pd.
+
+(* the repaired toFixed (small_f64_to_fixed from the exact 1100-digit expansion below 1e-10, ryu-js by its specification
+   above) = toFixed of ECMA-262, for every pattern and every digits argument *)
+Theorem to_fixed_fixed_model_eq_spec : forall bits f, 0 <= bits -> to_fixed_fixed_model bits f = to_fixed_spec bits f.
+Proof. exact to_fixed_fixed_model_eq_spec_lemma. Qed.
+Check to_fixed_fixed_model_eq_spec : forall bits f, 0 <= bits -> to_fixed_fixed_model bits f = to_fixed_spec bits f.
+
+(* the repaired parseInt (exact BigUint accumulation, one rounding) = parseInt of ECMA-262 with mathInt taken exactly,
+   for every string and every radix argument *)
+Theorem parse_int_fixed_model_eq_spec : forall s radix, parse_int_fixed_model s radix = parse_int_spec s radix.
+Proof. exact parse_int_fixed_model_eq_spec_lemma. Qed.
+Check parse_int_fixed_model_eq_spec : forall s radix, parse_int_fixed_model s radix = parse_int_spec s radix.
+
 (* ---- the hypotheses above are satisfiable ---------------------------------------------------------------------- *)
 Example shortest_of_one : shortest 4607182418800017408 = Some (1, 1, 1).
 Proof. vm_compute. reflexivity. Qed.
@@ -170,3 +205,6 @@ Print Assumptions to_string_digits_roundtrip.
 Print Assumptions parse_int_exact.
 Print Assumptions number_string_roundtrip.
 Print Assumptions to_string_shortest.
+Print Assumptions to_precision_fixed_model_eq_spec.
+Print Assumptions parse_int_fixed_model_eq_spec.
+Print Assumptions to_fixed_fixed_model_eq_spec.
